@@ -11,7 +11,7 @@ DEFECTS = {"MCPhases_defect_bgbeforeint.cfg": ("C05", "AppliedBeforeHandlers"), 
 
 
 def run_phases(ctx, pid, what):
-    cfgs = ["MCPhases_quick.cfg"] + ([] if ctx.quick() else ["MCPhases_thorough.cfg"])
+    cfgs = ["MCPhases_quick.cfg"] + ([] if ctx.quick() else ["MCPhases_thorough.cfg", "MCPhases_thorough2.cfg"])
     for cfg, r in ctx.tlc_many("Phases.tla", cfgs, what="Phases.tla exhaustive: safety predicates + AllDelivered under weak fairness", timeout=3600).items():
         if not r.ok:
             raise common.Inconclusive("TLC did not accept the design on %s: %s\n%s" % (cfg, r.violated(), "\n".join(r.out.splitlines()[-40:])))
